@@ -15,6 +15,29 @@ import re
 from .report import Unsupported
 
 
+_BRANCH = re.compile(r"^Branch\(\[(.*)\]\): (?:&'?\w* ?)?str$")
+
+
+def pat_str(pat):
+    """string value of a constant pattern (rustc prints str valtrees as Branch([bytes]): str)"""
+    if "str" in pat:
+        return pat["str"]
+    t = pat.get("text")
+    if not t:
+        return None
+    m = _BRANCH.match(t)
+    if not m:
+        return None
+    body = m.group(1).strip()
+    if not body:
+        return ""
+    try:
+        return bytes(int(x.strip().split("_")[0]) for x in body.split(",")).decode("utf-8")
+    except ValueError:
+        return None
+
+
+
 # --------------------------------------------------------------------------
 # values
 
@@ -476,6 +499,8 @@ class Machine(object):
                     c = bool(c)
             elif "str" in pat:
                 c = pat["str"]
+            elif pat_str(pat) is not None:
+                c = pat_str(pat)
             else:
                 raise Unsupported("constant pattern %s" % pat.get("text"))
             if isinstance(v, Term):
